@@ -11,8 +11,7 @@ ID = "C06"
 RULE = ("Hypothesis generates session lists whose cumulative lengths straddle 99/100/101 and 199/200/201 (<=230 steps quick, "
         "<=450 thorough), 1-3 markets plus an optional index market, scripted agents, a fundamental price shock and optionally "
         "a trading halt rule. A probe event runs before every market step: every single-time getter is asked for now+1 and "
-        "now+k (k in 2..250), every series getter for [0, now+k], the index getters for now+1 -- each must refuse with an "
-        "AssertionError; the full series for times < now is compared (None/NaN-aware, exactly) with the snapshot of the "
+        "now+k (k in 2..250), every series getter for [0, now+k], the index getters for now+1 -- each must refuse (raise); the full series for times < now is compared (None/NaN-aware, exactly) with the snapshot of the "
         "previous step. From the trace: all markets report one time at every observation, step i reads time i, sessions span "
         "exactly iterationSteps steps starting at Session.session_start_time. Non-trivial = run crossing a 100-step chunk "
         "boundary with >=1 fill before and after it.")
@@ -112,7 +111,7 @@ def check_case(case):
         for g in GETN:
             try:
                 getattr(m, g)([final + 1])
-            except AssertionError:
+            except Exception:  # noqa: BLE001
                 pass
             else:
                 raise Violation("C06.future_allowed", f"{g}([{final + 1}]) after the run")
